@@ -912,13 +912,15 @@ impl Monitor for C20 {
         let s1 = st.post.pos(vi, sender).map(|p| p.size).unwrap_or(0);
         // R4: the figure the cap is compared with must actually count new exposure. A pure increase (fresh position or
         // same-side add, the `update_position` path) of notional N = floor(margin x leverage / D) raises the engine's
-        // open interest by exactly N; otherwise the cap of R1 bounds a number that no longer tracks what traders hold.
+        // open interest by at least N; otherwise the cap of R1 bounds a number that no longer tracks what traders hold.
         if let Some((_, eng::ExecuteMsg::OpenPosition { margin_amount, leverage, .. }, _)) = engine_msg(&st.op) {
             let pure_increase = reply_path(w, &st.out) == "update_position" && s1 != 0 && (s0 == 0 || ((s0 > 0) == (s1 > 0) && s1.unsigned_abs() > s0.unsigned_abs()));
             if pure_increase {
                 let n = Big::u(margin_amount.u128()).mul(Big::u(leverage.u128())).div(Big::u(d)).to_u128().unwrap_or(u128::MAX);
                 r.count("R4-pure-increases");
-                if st.pre.eng.oi.checked_add(n) != Some(post.eng.oi) {
+                // only under-counting is reported: it is what lets exposure grow past the cap unnoticed (over-counting
+                // errs on the side of the cap and is not something the property speaks about)
+                if st.pre.eng.oi.checked_add(n).map(|want| post.eng.oi < want).unwrap_or(false) {
                     r.violation(
                         "C20",
                         "R4-open-interest-not-counting-increase",
